@@ -56,8 +56,21 @@ def bits2f(h):
     return struct.unpack('>d', bytes.fromhex(h.rjust(16, '0')))[0]
 
 
-def flags_str(stream):
-    return ''.join('1' if getattr(stream, n, False) else '0' for n in CFLAGS) + '00'
+_MISSING = object()
+
+
+def flags_str(stream, derived=None):
+    """the 7 client state flags handed to the model (which path of the generated operation the call
+    takes).  They are private attributes: read defensively, and when one is not there under that name
+    fall back to the value DERIVED from public observations (frames on the wire, results of the calls
+    made so far)."""
+    out = []
+    for i, n in enumerate(CFLAGS):
+        v = getattr(stream, n, _MISSING)
+        if v is _MISSING or not isinstance(v, (bool, type(None))):
+            v = bool(derived[i]) if derived is not None else False
+        out.append('1' if v else '0')
+    return ''.join(out) + '00'
 
 
 def res_class(e):
@@ -76,17 +89,13 @@ def res_class(e):
     return 'error'
 
 
-def deadline_timers(loop):
-    """armed (not cancelled) timers created by DeadlineWrapper.start"""
-    out = []
-    for h in loop._scheduled:
-        if h._cancelled:
-            continue
-        cb = getattr(h, '_callback', None)
-        qn = getattr(cb, '__qualname__', '')
-        if 'DeadlineWrapper.start' in qn:
-            out.append(h)
-    return out
+def pending_timers(loop, own=()):
+    """timers that are armed (scheduled and not cancelled) and were not scheduled by the harness itself.
+    Observed at the event loop, by behaviour: whatever grpclib arms for a call shows up here, however
+    the callback is spelled (closure, bound method, partial).  A client call has no other timer than
+    its deadline's (client keepalive is off by default)."""
+    own = {id(h) for h in own if h is not None}
+    return [h for h in getattr(loop, '_scheduled', []) if not h.cancelled() and id(h) not in own]
 
 
 class CEnd(wire.ClientEnd):
@@ -124,6 +133,7 @@ PROGRAMS = {
     # target op -> calls made inside the context (the last one is the target); 'X' = leave the context
     'sr': ['sr'], 'sm': ['sr', 'sm'], 'sm*': ['sm'], 'en': ['sr', 'en'], 'ri': ['sr', 'ri'],
     'rm': ['sr', 'rm'], 'rt': ['sr', 'sm1', 'ri', 'rt'], 'ca': ['sr', 'ca'], 'ex': ['sr', 'sm1'],
+    'si': ['sm'],            # send_message with the IMPLICIT send_request (first call of the stream)
 }
 
 
@@ -136,7 +146,8 @@ def client_program(op, reason):
 def blocking_kinds(op, reason):
     """which await kinds the scripted condition keeps from completing until it is lifted"""
     if reason == 'paused':
-        return {'sr': ['send_request'], 'sm': ['send_data'], 'en': ['end'], 'ca': ['reset']}.get(op, [])
+        return {'sr': ['send_request'], 'si': ['send_request'], 'sm': ['send_data'], 'en': ['end'],
+                'ca': ['reset']}.get(op, [])
     if reason == 'slot':
         return ['send_request']
     if reason == 'credit':
@@ -165,7 +176,7 @@ def run_client(case):
             c = {}
             if lifted():
                 return c
-            if reason == 'paused' and op in ('sr',):
+            if reason == 'paused' and op in ('sr', 'si'):
                 c['paused'] = True
             if reason == 'slot':
                 c['settings'] = {SettingCodes.MAX_CONCURRENT_STREAMS: 0}
@@ -174,6 +185,7 @@ def run_client(case):
             return c
 
         ce = CEnd(loop, delay=secs(delay), conditions=conditions)
+        own_timers = []
         st = {'answered': 0}
 
         def answer(stage):
@@ -188,6 +200,7 @@ def run_client(case):
                 if st['answered'] < 1 <= stage:
                     ce.peer.headers(sid, P.RESP_HEADERS)
                     st['answered'] = 1
+                    st['t1'] = loop.time()
                 if st['answered'] < 2 <= stage:
                     ce.peer.data(sid, P.grpc_frame(b'r'))
                     ce.peer.headers(sid, [('grpc-status', '0')], end_stream=True)
@@ -220,7 +233,9 @@ def run_client(case):
         if timeout is not None:
             kw['timeout'] = secs(timeout) if timeout >= 0 else -secs(-timeout)
         if explicit is not None:
-            kw['deadline'] = Deadline(_timestamp=secs(explicit))
+            # public constructor: the clock stands at t0 here, the sum is exact
+            kw['deadline'] = Deadline.from_timeout(secs(explicit - t0) if explicit >= t0
+                                                   else -secs(t0 - explicit))
         stream = ce.channel.request('/v.S/M', CARDS['SS'], bytes, bytes, **kw)
 
         def call(c):
@@ -228,6 +243,23 @@ def run_client(case):
                     'sm1': lambda: stream.send_message(b'm', end=True), 'en': stream.end,
                     'ri': stream.recv_initial_metadata, 'rm': stream.recv_message,
                     'rt': stream.recv_trailing_metadata, 'ca': stream.cancel}[c]()
+
+        derived = [False] * 7       # flags as implied by what is publicly observable
+
+        def observe(c=None, ok=False):
+            frames = [fr for tap in ce.taps for fr in tap.frames if fr.stream_id % 2 == 1]
+            derived[0] = any(fr.type == 'HEADERS' for fr in frames)                 # request sent
+            if c in ('sm', 'sm1') and ok:
+                derived[1] = True
+            if (c in ('sm1', 'en') and ok):
+                derived[2] = True
+            if c == 'ri' and ok or c == 'rt' and ok or \
+                    c == 'rm' and (ok or (st.get('t1') is not None and st['t1'] < loop.time())):
+                derived[3] = True
+            if c == 'rt' and ok:
+                derived[4] = True
+            if c == 'ca' and ok:
+                derived[5] = True
 
         async def app():
             try:
@@ -238,25 +270,28 @@ def run_client(case):
                 return
             body_exc = None
             for i, c in enumerate(prog):
-                if i == target_index and reason == 'paused' and op != 'sr' and not lifted() \
+                if i == target_index and reason == 'paused' and op not in ('sr', 'si') and not lifted() \
                         and ce.conns:
                     ce.transport.pause()
-                rec = {'call': c, 'flags': flags_str(stream), 'start': ticks_of(loop.time()),
+                observe()
+                rec = {'call': c, 'flags': flags_str(stream, derived), 'start': ticks_of(loop.time()),
                        'res': 'pending', 'at': None, 'msg': False}
                 obs['ops'].append(rec)
                 try:
                     r = await call(c)
                     rec['res'], rec['at'] = 'ret', ticks_of(loop.time())
                     rec['msg'] = r is not None
+                    observe(c, True)
                 except BaseException as e:
                     rec['res'], rec['at'] = res_class(e), ticks_of(loop.time())
                     body_exc = e
+                    observe(c, False)
                     break
                 if c in ('sr', 'sm', 'sm1'):
                     loop.call_soon(auto_answer)
                     await asyncio.sleep(0)          # let the peer's immediate answer arrive
                     await asyncio.sleep(0)
-            rec = {'call': 'X', 'flags': flags_str(stream), 'start': ticks_of(loop.time()),
+            rec = {'call': 'X', 'flags': flags_str(stream, derived), 'start': ticks_of(loop.time()),
                    'res': 'pending', 'at': None, 'exc': body_exc is not None,
                    'closing': bool(ce.conns) and ce.transport.is_closing()}
             obs['exit'] = rec
@@ -268,17 +303,36 @@ def run_client(case):
                 rec['res'], rec['at'] = 'ret', ticks_of(loop.time())
             except BaseException as e:
                 rec['res'], rec['at'] = res_class(e), ticks_of(loop.time())
-            obs['armed_after_exit'] = len(deadline_timers(loop))
+            obs['armed_after_exit'] = len(pending_timers(loop, own_timers))
 
+        # a BYSTANDER: an unrelated call without timeout (its own channel), blocked in recv_message for
+        # the whole run -- no timer of anybody may ever interrupt it
+        by = {'res': 'pending'}
+        task2 = None
+        if case.get('bystander', True):
+            ce2 = wire.ClientEnd(loop)
+            stream2 = ce2.channel.request('/v.S/B', CARDS['SS'], bytes, bytes)
+
+            async def bystander():
+                try:
+                    async with stream2:
+                        await stream2.send_request()
+                        await stream2.recv_message()
+                    by['res'] = 'ret'
+                except BaseException as e:
+                    by['res'] = res_class(e)
+                    by['at'] = loop.time()
+                    raise
+            task2 = loop.create_task(bystander())
         task = loop.create_task(app())
         if lift is not None:
-            loop.call_at(secs(lift), lift_now)
+            own_timers.append(loop.call_at(secs(lift), lift_now))
         r = loop.run_until(secs(FAR))
         obs['stop'] = r
         obs['app_done'] = task.done()
 
         obs['unhandled'] = len(loop.unhandled)
-        obs['armed_end'] = len(deadline_timers(loop))
+        obs['armed_end'] = len(pending_timers(loop, own_timers))
         obs['clock'] = loop.time()
         for tap in ce.taps:
             for fr in tap.frames:
@@ -286,9 +340,12 @@ def run_client(case):
                     obs['frames'].append((ticks_of(fr.time), dict(fr.headers).get('grpc-timeout'),
                                           sum(1 for k, _ in fr.headers if k == 'grpc-timeout')))
                     break
+        obs['bystander'] = dict(by)
         import copy
         final = copy.deepcopy(obs)          # snapshot: the teardown below cancels what is still pending
         task.cancel()
+        if task2 is not None:
+            task2.cancel()
     return final
 
 
@@ -307,7 +364,7 @@ def run_server(case):
     card, reply = case.get('card', 'SS'), case.get('reply', 'direct')
     span = case.get('span', 7000.0)
     obs = {'started': None, 'cancel_at': None, 'cancels': 0, 'status': None, 'status_at': None,
-           'second_cancel': False, 'listener_calls': 0}
+           'second_cancel': False, 'listener_calls': 0, 'bystander_cancelled': None}
     with vloop.session() as loop:
         loop._vtime = a
 
@@ -345,18 +402,32 @@ def run_server(case):
                 return
             await finish(stream, fin)
 
-        se = wire.ServerEnd(loop, [Service('v.S', {'M': (handler, card)})], tap=True)
+        async def bystander(stream):
+            # an unrelated request WITHOUT grpc-timeout, waiting for the whole run: never interrupted
+            obs['bystander_started'] = True
+            try:
+                await asyncio.Event().wait()
+            except asyncio.CancelledError:
+                obs['bystander_cancelled'] = loop.time()
+                raise
+
+        se = wire.ServerEnd(loop, [Service('v.S', {'M': (handler, card), 'B': (bystander, 'SS')})],
+                            tap=True)
         if reply == 'listener':
             async def on_trailers(event):
                 obs['listener_calls'] += 1
                 await asyncio.sleep(0)          # a listener that really suspends
             listen(se.server, SendTrailingMetadata, on_trailers)
         loop.run_quiet(0)
+        if case.get('bystander', True):
+            se.peer.request([(k, '/v.S/B' if k == ':path' else v) for k, v in P.REQ_HEADERS])
+            loop.run_quiet(0)
         sid = se.peer.request(P.REQ_HEADERS + [('grpc-timeout', v) for v in values])
         if reply == 'paused':
             se.transport.pause()
             obs['stop1'] = loop.run_quiet(case.get('resume', 1.0))
             se.transport.resume()
+            span = max(span - case.get('resume', 1.0), 64.0)   # stay clear of the 7200 s server keepalive
         obs['stop'] = loop.run_quiet(span)
         for fr in se.taps[-1].frames:
             if fr.type == 'HEADERS' and fr.stream_id == sid:
@@ -366,6 +437,6 @@ def run_server(case):
                     obs['status_at'] = fr.time
                     obs['http_status'] = hs.get(':status')
                     obs['message'] = hs.get('grpc-message')
-        obs['armed_end'] = len(deadline_timers(loop))
         obs['unhandled'] = len(loop.unhandled)
-    return obs
+        final = dict(obs)           # snapshot: the teardown cancels the bystander
+    return final
